@@ -95,6 +95,14 @@ func c04(c *Ctx) {
 			tod := one(c, "connection-level onData in "+s.fn, callsIn(f, Callee(tr, "trInFlow.onData")))
 			c.ArgIs(tod, 1, "connection-accounts-the-frame-length", FieldLoad(c.field(h2, "FrameHeader", "Length")))
 			c.Dominates(tod, od, "connection-accounting-first")
+			// connection-level accounting is unconditional: bytes of a frame for an unknown/finished stream
+			// still consumed connection window and must be counted, otherwise the window leaks
+			for _, r := range returnsOf(f) {
+				if r.Block() == f.Recover {
+					continue
+				}
+				c.Expect(instrDominates(tod, r), r, f, "connection-accounting-unconditional", "a return of the DATA handler is reachable without the connection-level accounting of the frame")
+			}
 		}
 	})
 	c.Ob("padding-credit", "R3", "sibling x2: for a padded DATA frame the padding (frame length - data length) is returned to the stream window immediately", 2, func() {
